@@ -1,6 +1,6 @@
 /-
 C13: `ChunkWriter.Close` for both index locations: the bytes that reach the Writer form a file in which the
-index tree is laid out, whose root the spec reader finds, and whose chunk list matches the leaf nodes (`CW.close_ok`).
+index tree is laid out, whose root the spec reader finds, and whose chunk list matches the leaf nodes (`CW.close_roundtrip`).
 -/
 import WuffsVerif.Proof.RacAssemble
 namespace WuffsVerif.Rac
@@ -374,7 +374,7 @@ theorem CW.close_start (c : CW) (hi : DataInv c) (he : c.err = none) (hne : c.le
 
 /-- **index round trip**: after a successful `ChunkWriter.Close` with at least one chunk, the independent spec
 reader lists exactly the accepted chunks, whose bytes sit in the file at the listed offsets -/
-theorem CW.close_ok (c : CW) (hi : DataInv c) (he : c.err = none) (hne : c.leafNodes.size ≠ 0)
+theorem CW.close_roundtrip (c : CW) (hi : DataInv c) (he : c.err = none) (hne : c.leafNodes.size ≠ 0)
     (hcl : (c.close).2 = none) : CloseOK c := by
   cases hat : c.indexAtStart with
   | false => exact CW.close_end c hi he hne hat hcl
